@@ -321,7 +321,7 @@ func materialStage(r *ev.Run, m int) {
 				sd := enumerate(m, 2, func(g *rand.Rand) interface{} { return render3d.SampleDest(mat, g, n, d) })
 				checkLobe(r, "Lambert/dest", fmt.Sprintf("normal %v source %v", n, d), c, n, sd, func(x c3) float64 { return render3d.DestDensity(mat, n, d, x) }, 0)
 			})
-			for _, alpha := range []float64{0, 0.5, 2, 10, 100, 1000} {
+			for _, alpha := range []float64{0, 0.5, 1, 2, 10, 31, 100, 1000, 20000} {
 				alpha := alpha
 				add("phong", func() {
 					spec := &render3d.PhongMaterial{Alpha: alpha, SpecularColor: render3d.NewColor(0.5)}
@@ -427,7 +427,9 @@ func materialStage(r *ev.Run, m int) {
 					}
 				})
 			}
-			for _, g := range []float64{-0.9, -0.5, 0, 0.5, 0.9} {
+			// asymmetries incl. weak but non-zero ones (where a series expansion or a switch to the isotropic formula
+			// would sit), one below the library's own 1e-5 floor, and a strongly peaked one
+			for _, g := range []float64{-0.9, -0.5, 0, 0.5, 0.9, 0.015, -0.015, 0.05, -0.004, 3e-6, -0.3, 0.99} {
 				g := g
 				add("hg", func() {
 					mat := &render3d.HGMaterial{G: g, ScatterColor: render3d.NewColor(0.9), IgnoreNormals: true}
@@ -537,7 +539,7 @@ func materialStage(r *ev.Run, m int) {
 				}
 			})
 			// refraction: delta lobes
-			for _, ior := range []float64{0.7, 1.3, 2.4} {
+			for _, ior := range []float64{0.7, 1.3, 2.4, 1, 1.02, 0.98} {
 				for _, spec := range []bool{false, true} {
 					ior, spec := ior, spec
 					add("refract", func() { checkRefract(r, m, ior, spec, n, d) })
@@ -668,6 +670,29 @@ func checkRefract(r *ev.Run, m int, ior float64, spec bool, n, d c3) {
 				lobes = append(lobes, lobe{dd, 1 / float64(len(ss))})
 			}
 		}
+		// the two directions a delta lobe can sit in are known without sampling: the mirror direction and the direction
+		// the Fresnel-free material of the same index sends the ray to. A lobe whose probability is below the lattice
+		// resolution (reflectance 0.006 at index 1.02) is never drawn from the lattice; it is still a lobe.
+		if spec {
+			plainM := &render3d.RefractMaterial{IndexOfRefraction: ior, RefractColor: render3d.NewColor(0.9)}
+			cands := []c3{n.Scale(2 * n.Dot(d)).Sub(d).Scale(-1)}
+			if side == 0 {
+				cands = append(cands, plainM.SampleSource(rand.New(&script{vals: []int64{1}}), n, d))
+			} else {
+				cands = append(cands, plainM.SampleDest(rand.New(&script{vals: []int64{1}}), n, d))
+			}
+			for _, cd := range cands {
+				found := false
+				for _, l := range lobes {
+					if l.dir.Dist(cd) < 1e-6 {
+						found = true
+					}
+				}
+				if !found {
+					lobes = append(lobes, lobe{cd, 0})
+				}
+			}
+		}
 		sum := 0.0
 		for _, l := range lobes {
 			// probability mass the density assigns to the cap around the lobe = density x cap fraction (eps/2)
@@ -731,7 +756,13 @@ func checkRefract(r *ev.Run, m int, ior float64, spec bool, n, d c3) {
 	// energy in the delta lobes of the BSDF for incoming direction d (as source)
 	total := 0.0
 	seen := []c3{}
-	for _, out := range []c3{mat.SampleDest(rand.New(&script{vals: []int64{1}}), n, d), mat.SampleDest(rand.New(&script{vals: []int64{math.MaxInt64 - 1}}), n, d)} {
+	plainD := &render3d.RefractMaterial{IndexOfRefraction: ior, RefractColor: render3d.NewColor(0.9)}
+	outs := []c3{mat.SampleDest(rand.New(&script{vals: []int64{1}}), n, d), mat.SampleDest(rand.New(&script{vals: []int64{math.MaxInt64 - 1}}), n, d)}
+	if spec {
+		// both lobes, whether or not the two scripted draws reach them (a reflectance of exactly 0 is never drawn)
+		outs = append(outs, n.Scale(2*n.Dot(d)).Sub(d).Scale(-1), plainD.SampleDest(rand.New(&script{vals: []int64{1}}), n, d))
+	}
+	for _, out := range outs {
 		dup := false
 		for _, s := range seen {
 			if s.Dist(out) < 1e-6 {
